@@ -292,7 +292,7 @@ func c15Jobs(tier string) []string {
 		jobs = append(jobs, fmt.Sprintf("cksum-small:%d", c))
 		jobs = append(jobs, fmt.Sprintf("cksum-len:%d", c))
 	}
-	jobs = append(jobs, "opts-strings:0", "opts-strings:1", "opts-strings:2", "opts-strings:3", "opts-encoders", "dns-question", "partial")
+	jobs = append(jobs, "opts-strings:0", "opts-strings:1", "opts-strings:2", "opts-strings:3", "opts-encoders", "dns-question", "partial", "pseudo:1", "pseudo:6", "pseudo:17", "pseudo:58")
 	return jobs
 }
 
@@ -355,6 +355,8 @@ func c15Run(job, tier string, deadline time.Time) *engine.Result {
 		c15DNS(r, bad)
 	case "partial":
 		c15Partial(r, bad)
+	case "pseudo":
+		c15Pseudo(r, parts, bad)
 	default:
 		r.Err = "unknown job " + job
 	}
@@ -807,6 +809,78 @@ func c15Partial(r *engine.Result, bad func(string, string, ...interface{})) {
 	}
 	r.Execs, r.States, r.Transitions, r.Nontrivial = n, n, n, n
 	r.Sample(map[string]interface{}{"partial": "UDP/TCP/IPv4 CalculateChecksum for payload lengths 0..300"})
+}
+
+// c15Pseudo: PseudoHeaderChecksum(proto, src, dst) against the RFC 1071 sum of
+// src | dst | 0 | proto for IPv4 pairs (one 16-bit word swept over all values, the other
+// three over boundary values) and IPv6 pairs (every pattern of all-zero / all-one words, low
+// word over boundary values): every carry out of the address sum is covered.
+func c15Pseudo(r *engine.Result, parts []string, bad func(string, string, ...interface{})) {
+	var proto int
+	fmt.Sscan(parts[1], &proto)
+	norm := func(v uint16) uint16 {
+		if v == 0xffff {
+			return 0
+		}
+		return v
+	}
+	var n int64
+	check := func(src, dst []byte) {
+		g := header.PseudoHeaderChecksum(tcpip.TransportProtocolNumber(proto), tcpip.Address(src), tcpip.Address(dst))
+		buf := append(append(append([]byte{}, src...), dst...), 0, byte(proto))
+		if e := ref.Sum(buf, 0); norm(g) != norm(e) {
+			bad("pseudo-header", "PseudoHeaderChecksum(%d, %x, %x)=%#x, RFC 1071 sum of the pseudo-header words is %#x", proto, src, dst, g, e)
+		}
+		n++
+	}
+	bv := []uint16{0, 1, 0x00ff, 0x8000, 0xfffe, 0xffff}
+	w := func(b []byte, v uint16) { b[0], b[1] = byte(v>>8), byte(v) }
+	src, dst := make([]byte, 4), make([]byte, 4)
+	for pos := 0; pos < 4; pos++ {
+		for a := 0; a < 1<<16; a++ {
+			for _, x := range bv {
+				for _, y := range bv {
+					for _, z := range bv {
+						vals := []uint16{x, y, z}
+						k := 0
+						for q := 0; q < 4; q++ {
+							v := uint16(a)
+							if q != pos {
+								v = vals[k]
+								k++
+							}
+							if q < 2 {
+								w(src[2*q:], v)
+							} else {
+								w(dst[2*(q-2):], v)
+							}
+						}
+						check(src, dst)
+					}
+				}
+			}
+		}
+	}
+	s6, d6 := make([]byte, 16), make([]byte, 16)
+	for pat := 0; pat < 1<<15; pat++ {
+		for _, low := range []uint16{0, 1, 0x00ff, 0xff00, uint16(0xffff - proto), uint16(0xfffe - proto), 0xfffe, 0xffff} {
+			for q := 0; q < 15; q++ {
+				v := uint16(0)
+				if pat&(1<<uint(q)) != 0 {
+					v = 0xffff
+				}
+				if q < 8 {
+					w(s6[2*q:], v)
+				} else {
+					w(d6[2*(q-8):], v)
+				}
+			}
+			w(d6[14:], low)
+			check(s6, d6)
+		}
+	}
+	r.Execs, r.States, r.Transitions, r.Nontrivial = n, n, n, n
+	r.Sample(map[string]interface{}{"pseudo": "PseudoHeaderChecksum: IPv4 pairs with one word swept over 0..65535 and three boundary words, IPv6 pairs over all zero/one word patterns", "protocol": proto})
 }
 
 func c15Replay(rp json.RawMessage) *engine.Violation {
